@@ -333,6 +333,43 @@ func runC19(c *core.Ctx) {
 
 	c.Clause("D4", func() { runCloneCompleteness(c) })
 
+	c.Clause("D10", func() {
+		// "a read sees at least all writes acknowledged before it began" while a cache snapshot commits: the snapshot's
+		// points leave the cache (ClearSnapshot(true)) only after their TSM file is in the file store, otherwise a read
+		// scheduled in between finds them in neither (same clause as C01/C09, necessary here for every schedule)
+		g := c.Fn(tsm1 + ".(*Engine).writeSnapshotAndCommit")
+		rep := fieldCallIn(g, "Engine.FileStore", "Replace")
+		findOrAbort(c, g, "FileStore.Replace", evCall(rep), 1)
+		okRule(c, g, "acknowledged-points-visible-during-snapshot-commit", "FileStore.Replace", "Cache.ClearSnapshot", rep, evCall(func(ce *ast.CallExpr) bool {
+			se, ok := ce.Fun.(*ast.SelectorExpr)
+			return ok && se.Sel.Name == "ClearSnapshot"
+		}))
+		// hinted-handoff traffic above ten concurrent writers takes the buffered path: a segment that stops being the
+		// tail must not keep accepted blocks in memory (same clause as C04 D9)
+		f := c.Fn(hhp + ".(*segment).append")
+		fl := calleeIn(f, hhp+".(*segment).flush")
+		full := c.P.LookupObj(hhp, "ErrSegmentFull")
+		c.Need(full != nil, "hh.ErrSegmentFull")
+		n := 0
+		for _, e := range f.Graph().Events {
+			if e.Kind != core.EvReturn || !f.Flow().Reachable(e) {
+				continue
+			}
+			x, _ := f.ResultExpr(e, 0)
+			if x == nil {
+				continue
+			}
+			id, ok := ast.Unparen(x).(*ast.Ident)
+			if !ok || f.Info().ObjectOf(id) != full {
+				continue
+			}
+			n++
+			c.Check("buffered-blocks-flushed-before-rotation", fmt.Sprintf("%s/return-ErrSegmentFull#%d", f.Name, n), c.P.Pos(e.Pos()), f.Flow().CallOKAt(e, fl),
+				"under concurrent hinted-handoff writers (buffered path) segment.append reports ErrSegmentFull without flushing its buffer: the queue rotates the tail and the accepted blocks are never written while the old segment is readable")
+		}
+		c.Floor("ErrSegmentFull returns", n, 1)
+	})
+
 	runC19rest(c)
 }
 
